@@ -191,3 +191,28 @@ func Harness_C17_unit_ifs() {
 	verifAssert(got == a+b && sameObs(og, ow), "t_unit_ifs: an else belongs to the if at its own column; one-line unit ifs run their statement only")
 	verifCover("end")
 }
+
+func Harness_C17_paren_groups() {
+	a, b, c := verifBool("a"), verifBool("b"), verifBool("c")
+	x := (a || b) && c
+	y := c && (a || b)
+	z := (a && b) || c
+	w := a && (b || c) && a
+	want := 0
+	switch {
+	case x && y && z:
+		want = 7
+	case x && y:
+		want = 6
+	case x:
+		want = 5
+	case w:
+		want = 4
+	case z:
+		want = 3
+	}
+	verifAssert(t_paren_groups(a, b, c) == want, "t_paren_groups: parenthesised || / && groups keep their grouping")
+	i, j, k := verifInt("i"), verifInt("j"), verifInt("k")
+	verifAssert(t_paren_arith(i, j, k) == (i-(j-k))-((i-j)+(k+1))+(i-(j-k)), "t_paren_arith: parenthesised arithmetic groups")
+	verifCover("end")
+}
